@@ -36,7 +36,7 @@ def parseEv (w : String) : Option Ev :=
         | 'w' => some (.writeOk c) | 'c' => some (.ctxDone c) | _ => none
     | [] => none
 
-/-- `mux <kinds: G go-call, B blocking call, O one-way go-call> <events…>`:
+/-- `mux <kinds: G go-call, B blocking call, O one-way go-call, R SendRaw, …> <events…>`:
     per call "signals:outcome" (G/O) or "ret" (B), then connection flags and the push channel -/
 def cmdMux (ws : List String) : String :=
   match ws with
@@ -47,6 +47,15 @@ def cmdMux (ws : List String) : String :=
       if w.startsWith "H" then ["T", "r" ++ (w.drop 1).toString]
       else if w.startsWith "K" then ["C", "T", "r" ++ (w.drop 1).toString]
       else if w.startsWith "N" then ["r" ++ (w.drop 1).toString, "w" ++ (w.drop 1).toString, "T"]
+      else if w.startsWith "G" then
+        -- `G<i>:<q>:<tag>`: the reader, inside the dispatch of the response to call i, has taken the call
+        -- out of the table and is held there while the caller's context ends: the caller's section
+        ["c" ++ ((w.drop 1).toString.splitOn ":").head!]
+      else if w.startsWith "g:" then
+        -- `g:<q>:<tag>`: the held dispatch goes on: a completion for a call nobody waits for any more
+        match w.splitOn ":" with
+        | [_, q, tag] => ["f:" ++ q ++ ":-:" ++ tag]
+        | _ => [w]
       else if w.startsWith "y" then []   -- a call parked inside Write: not a step of the model
       else if w.startsWith "p:" then ["T"]   -- the stream ends inside a frame: a reader termination
       else [w])
@@ -54,9 +63,9 @@ def cmdMux (ws : List String) : String :=
     | none => "bad-event"
     | some evs =>
       let ks := kinds.toList
-      let s := run (init (ks.map (· == 'O'))) evs  -- kinds G and N (raw reply) behave alike
+      let s := run (init (ks.map (fun k => (k == 'O', k == 'R')))) evs  -- kinds G and N (raw-bytes reply) behave alike; R = SendRaw
       let per := (ks.zip s.calls).map (fun (k, r) =>
-        if k == 'B' || k == 'D' then "ret=" ++ outStrMux r.ret
+        if k == 'B' || k == 'D' || k == 'R' then "ret=" ++ outStrMux r.ret
         else s!"{r.signals}:{outStrMux r.outcome}")
       let chan := if s.chan.isEmpty then "-" else ",".intercalate (s.chan.map (fun f => toString f.tag))
       " ".intercalate per ++ s!" | sd={boolStr s.shutdown} chan={chan}"
